@@ -7,7 +7,7 @@ nested block comments, maximal munch inside numbers/identifiers, digit-leading i
 import re
 
 from .. import paths, ref
-from ..facts import Body, op_const
+from ..facts import Body, op_const, op_local
 from ..common import lexer_tables, LEXER, TOKENKIND
 
 
@@ -36,6 +36,45 @@ def may_return_kinds(prog, fn, seen=None):
                 out.add("Error")
             elif c and c.startswith("syntax::"):
                 out |= may_return_kinds(prog, c, seen)
+            elif c and re.search(r"option::Option::<T>::(unwrap_or|unwrap_or_else|unwrap_or_default|map_or)$", c):
+                # `helper(..).unwrap_or(TokenKind::X)`: the constant fallback
+                for a in t["args"]:
+                    k = op_const(a)
+                    l = op_local(a) if k is None else None
+                    if l is not None:
+                        d = b.single_def(l)
+                        if d and d[0] == "stmt" and isinstance(d[3], dict):
+                            k = op_const(d[3].get("use")) if isinstance(d[3].get("use"), dict) else None
+                            if k is None and isinstance(d[3].get("agg"), dict) and d[3]["agg"].get("adt") == TOKENKIND:
+                                out.add(d[3]["agg"]["variant"])
+                    if k and k.get("ty", "").endswith(TOKENKIND):
+                        out.add(k["val"].rsplit("::", 1)[-1])
+        # a table moved into a helper returning Option<TokenKind>: whatever it can put into Some(..) may be returned
+        if t["k"] == "call":
+            c2 = Body.callee(t) or ""
+            hb = prog.body(c2)
+            if hb is not None and c2.startswith("syntax::") and "Option<" + TOKENKIND in hb.local_ty(0):
+                out |= kinds_mentioned(prog, hb)
+    return out
+
+
+def kinds_mentioned(prog, b):
+    out = set()
+    for bb in b.blocks:
+        if bb["cleanup"]:
+            continue
+        for s in bb["s"]:
+            rv = s.get("rv") or {}
+            if "agg" in rv and isinstance(rv["agg"], dict) and rv["agg"].get("adt") == TOKENKIND:
+                out.add(rv["agg"]["variant"])
+            for key in ("use",):
+                c = op_const(rv.get(key)) if isinstance(rv.get(key), dict) else None
+                if c and c.get("ty", "").endswith(TOKENKIND):
+                    out.add(c["val"].rsplit("::", 1)[-1])
+            for o in rv.get("ops", []) if isinstance(rv.get("ops"), list) else []:
+                c = op_const(o)
+                if c and c.get("ty", "").endswith(TOKENKIND):
+                    out.add(c["val"].rsplit("::", 1)[-1])
     return out
 
 
